@@ -93,7 +93,20 @@ func (vd *Validator) Valid(s M, v any) (ok bool, amb bool) {
 				return false, amb
 			}
 		}
-		return true, amb
+		// keywords written next to allOf constrain the instance as well
+		rest := M{}
+		for k, x := range s {
+			switch k {
+			case "allOf", "nullable", "description", "discriminator":
+			default:
+				rest[k] = x
+			}
+		}
+		if len(rest) == 0 {
+			return true, amb
+		}
+		o, a := vd.Valid(rest, v)
+		return o, amb || a
 	}
 	if one := list(s["oneOf"]); one != nil {
 		n := 0
